@@ -744,6 +744,49 @@ fn live(ctx: &mut Ctx) {
             }).ok();
             break;
         }
+        // ---- the second peer withdraws (the library's own goodbye: its records with the cache-flush bit) and a peer of the same
+        // name comes back with another description: what is reported then is the new description, nothing of the old one
+        let redo_every = ctx.tier.pick(12u64, 6u64);
+        if ok && !v6 && !tokio_side && k % redo_every == 2 {
+            let d3 = gen_desc(&mut r, &d2.name);
+            let want_new: HashSet<InstanceInformation> = [d3.info(7)].into_iter().collect();
+            let redo = monitor::guard(|| {
+                if let Ok(s) = &mut s2 { s.remove_service_from_discovery(); }
+                std::thread::sleep(std::time::Duration::from_millis(1300));
+                let s3 = sync_discovery::ServiceDiscovery::new_with_scope(d3.info(8), &svc, 60, None, scope).map_err(|e| e.to_string())?;
+                let deadline = std::time::Instant::now() + std::time::Duration::from_secs(5);
+                let mut last = HashSet::new();
+                while std::time::Instant::now() < deadline {
+                    last = s1.get_known_services();
+                    if last.len() == want_new.len() && last.iter().all(|x| want_new.iter().any(|y| x == y)) {
+                        break;
+                    }
+                    std::thread::sleep(std::time::Duration::from_millis(60));
+                    if std::time::Instant::now() + std::time::Duration::from_secs(3) > deadline && last.is_empty() {
+                        s3.announce(false);
+                    }
+                }
+                let mut s3 = s3;
+                s3.remove_service_from_discovery();
+                Ok::<_, String>(last)
+            });
+            match redo {
+                Err(pn) => ctx.panic_violation("goodbye and re-advertisement of a live peer", &pn, case()),
+                Ok(Err(e)) => ctx.notes.push(format!("live discovery round {}: the re-advertising peer could not start: {}", k, e)),
+                Ok(Ok(last)) => {
+                    let exact = last.len() == want_new.len() && last.iter().all(|x| want_new.iter().any(|y| x == y));
+                    if exact {
+                        ctx.count("live_goodbye_then_another_description_reported_exactly");
+                    } else if last.is_empty() {
+                        ctx.count("live_goodbye_rounds_incomplete_(nothing_reported)");
+                        ctx.notes.push(format!("live discovery round {}: after goodbye and re-advertisement nothing was reported within 5 s (datagram loss?)", k));
+                    } else {
+                        ctx.violation("discovered-equals-announced", "live-rediscovery-differs",
+                            format!("a peer said goodbye and a peer of the same name advertised {:?}; 5 s later the first instance still reports {:?} (the withdrawn description was {:?})", want_new, last, want1), case());
+                    }
+                }
+            }
+        }
         if ok {
             ctx.count("live_pairs_discovered_each_other_exactly");
         } else {
